@@ -23,6 +23,9 @@ type gateState struct {
 	mu    sync.Mutex
 	dead  bool
 	extra []*leveldb.DB // handles replaced by Reset, closed by the harness
+	// torn: the next write is performed and the process dies right after it
+	// (the scheduler then tears the journal record the write produced)
+	torn bool
 	// write observer (C13/C14 oracles)
 	OnWrite func(op, key string, val []byte)
 }
@@ -51,6 +54,20 @@ func (g *gateState) enter(point, key string) {
 	}
 }
 
+// afterWrite ends the task when the scheduler planned a torn write for it.
+func (g *gateState) afterWrite() {
+	g.mu.Lock()
+	torn := g.torn
+	g.torn = false
+	if torn {
+		g.dead = true
+	}
+	g.mu.Unlock()
+	if torn {
+		panic(crashSentinel{node: g.node})
+	}
+}
+
 func (g *gateState) Get(key string) ([]byte, error) {
 	g.enter("st.get", key)
 	return g.real.Get(key)
@@ -64,6 +81,7 @@ func (g *gateState) GetOrError(key string) ([]byte, error) {
 func (g *gateState) Set(key string, value []byte) error {
 	g.enter("st.set", key)
 	err := g.real.Set(key, value)
+	g.afterWrite()
 	if err == nil && g.OnWrite != nil {
 		g.OnWrite("set", key, value)
 	}
@@ -72,12 +90,15 @@ func (g *gateState) Set(key string, value []byte) error {
 
 func (g *gateState) Delete(key string) error {
 	g.enter("st.del", key)
-	return g.real.Delete(key)
+	err := g.real.Delete(key)
+	g.afterWrite()
+	return err
 }
 
 func (g *gateState) SaveOffset(o uint64) error {
 	g.enter("st.saveOffset", "")
 	err := g.real.SaveOffset(o)
+	g.afterWrite()
 	if err == nil && g.OnWrite != nil {
 		g.OnWrite("offset", "", nil)
 	}
